@@ -28,6 +28,17 @@ CLAIMED = {
     "C11": dict(cat="exploration", tech="chain/point-query monitor against the oracle's list of real changes",
                 text="next/prev chains are compared with each other, with the oracle's change list and with point queries at T, T+-1.",
                 note="how far rule-generated transitions are enumerated is deliberately not demanded", ref="3/C11"),
+    "C04": dict(cat="exploration", tech="reference-model monitor (128-bit calendar oracle) + UBSan as the overflow detector; 146097-day cycle enumerated",
+                text="All six civil types are constructed from vetted tuples (exhaustive cycle bases x overlay panel, random int64 mixtures) "
+                     "and compared field by field with a 128-bit normalisation written from the statement; UBSan makes any avoidable "
+                     "intermediate overflow fatal.", note="trusts O-CAL (self-tested by naive walk)", ref="3/C04"),
+    "C05": dict(cat="exploration", tech="reference-model + algebraic-law monitor under UBSan",
+                text="Addition, subtraction, difference, increments and all relational operators are compared with unit-index arithmetic "
+                     "in 128-bit, and the inverse laws are checked on the library's own results, for every alignment, including the "
+                     "int64 extremes.", note="trusts O-CAL", ref="3/C05"),
+    "C17": dict(cat="exploration", tech="reference-model monitor, exhaustive over the 146097-day cycle x 7 weekdays at 13 cycle offsets",
+                text="weekday/yearday/next/prev_weekday compared with day-count arithmetic for every day of the Gregorian cycle, "
+                     "replicated across the int64 year range.", note="trusts O-CAL", ref="3/C17"),
 }
 
 PENDING = {}
